@@ -73,6 +73,9 @@ def gen(rng, n, var):
     sched = [{"t": 0, "j": 0, "op": "disc_start"}] if rng.random() < 0.8 else []
     running = bool(sched)
     span = v["initMax"] + v["base"] * (2 ** v["reps"])
+    cold = rng.choice(SVCS + [None])         # a service nobody offers in this history keeps the find task alive
+    warm = [x for x in SVCS if x != cold]
+    offered = {}                             # src -> services it offered (a rebooted peer offers them again)
     for (t, j) in positions(rng, n, gaps=(0, 0, 0, 1, 1, 1, 2, max(1, span // 3))):
         r = rng.random()
         if r < 0.1:
@@ -88,9 +91,14 @@ def gen(rng, n, var):
         else:
             src = rng.choice(["a1", "a2"])
             mc = rng.random() < 0.7
-            sid, rb = sids.next(src, mc, reboot=rng.random() < 0.08)
-            es = [{"ty": "offer", "svc": rng.choice(SVCS), "ttl": rng.choice([0, 1, 2, 3, 5, FOREVER]), "opts": []}
-                  for _ in range(rng.choice([1, 1, 2]))]
+            reboot = rng.random() < 0.14
+            sid, rb = sids.next(src, mc, reboot=reboot)
+            if reboot and offered.get(src) and rng.random() < 0.8:
+                es = [{"ty": "offer", "svc": x, "ttl": rng.choice([3, 5, 5, FOREVER]), "opts": []} for x in sorted(offered[src])]
+            else:
+                es = [{"ty": "offer", "svc": rng.choice(warm), "ttl": rng.choice([0, 1, 2, 3, 5, FOREVER]), "opts": []}
+                      for _ in range(rng.choice([1, 1, 2]))]
+            offered.setdefault(src, set()).update(e["svc"] for e in es if e["ttl"])
             sched.append({"t": t, "j": j, "op": "rx", "src": src, "mc": mc, "sid": sid, "rb": rb, "uc": True, "es": es})
     return sched
 
@@ -115,6 +123,33 @@ def traces_for(seed, count, length):
     return out
 
 
+def structured():
+    """a found service whose record is replaced (reboot + new offer, StopOffer + new offer, plain refresh) while the find
+    task still runs for another service: every old deadline x every replacement time x new TTL, two long variants"""
+    out = []
+    for var in "CE":
+        for a in (1, 2, 3):
+            for gap in range(0, a + 1):
+                for b in (3, 5, FOREVER):
+                    for how in ("reboot", "stop", "refresh"):
+                        t1 = 1
+                        sched = [{"t": 0, "j": 0, "op": "disc_start"},
+                                 {"t": t1, "j": 0, "op": "rx", "src": "a1", "mc": True, "sid": 5, "rb": True, "uc": True,
+                                  "es": [{"ty": "offer", "svc": "s1", "ttl": a, "opts": []}]}]
+                        if how == "stop":
+                            sched.append({"t": t1 + gap, "j": 1, "op": "rx", "src": "a1", "mc": True, "sid": 6, "rb": True, "uc": True,
+                                          "es": [{"ty": "offer", "svc": "s1", "ttl": 0, "opts": []}]})
+                        sid = {"reboot": 1, "stop": 7, "refresh": 6}[how]
+                        sched.append({"t": t1 + gap, "j": 2, "op": "rx", "src": "a1", "mc": True, "sid": sid, "rb": True, "uc": True,
+                                      "es": [{"ty": "offer", "svc": "s1", "ttl": b, "opts": []}]})
+                        watch0 = ["F2", "F3"]
+                        rand = [0] * 10
+                        ev, _ = run_schedule(sched, var, watch0, rand)
+                        out.append({"cfg": mon_cfg(var, watch0), "ev": monpass.add_adv(ev), "sched": sched, "var": var,
+                                    "watch0": watch0, "rand": rand, "diag": {"variant": var, "family": "record replaced: " + how}})
+    return out
+
+
 def payload(tr):
     return {k: tr[k] for k in ("sched", "var", "watch0", "rand")} | {"trace": tr["ev"]}
 
@@ -135,7 +170,7 @@ def check(ctx):
     m1.holds("window [0,1], 2 repetitions", "C13_quick.cfg", None if ctx.quick else {"MaxEv = 3": "MaxEv = 4"}, timeout=3000)
     m1.holds("window [1,1], 1 repetition, base 2", "C13_quick.cfg", {"C13_A": "C13_B"})
     m1.caught("SwFindAll", "C13_quick.cfg")
-    traces = traces_for(ctx.seed, ctx.pick(400, 6000), ctx.pick(8, 12))
+    traces = traces_for(ctx.seed, ctx.pick(400, 6000), ctx.pick(8, 12)) + structured()
     bad, ms = judge(ctx, "Mon_C13", traces, "find-task histories", payload)
     from .common import spec_to_code
     cfgA = dict(VARIANTS["A"], findTTL=FIND_TTL, watch0=["F1", "F3"], svcs=SVCS, match={"F1": ["s1", "s2"], "F3": ["s3"]})
